@@ -25,6 +25,8 @@ compile and the proof obligation breaks):
                let pat = if let p = e { .. } else { .. };
                continue;
                while c { block }   loop { block }    a loop: a function of its own, recursive on fuel
+               while let pat = e { block }           the same; each round evaluates e (it may change self) and
+                                                     goes on while its value matches pat
                for pat in e { block }           a function of its own, structurally recursive on the items of e
                if c { block } else { block }    as a statement
   tail         match s { pat => tail | block , ... }
@@ -264,6 +266,15 @@ class Parser:
             if tok == "continue":
                 self.eat(); self.eat(";")
                 stmts.append(("continuestmt",))
+                continue
+            if tok == "while" and self.peek(1) == "let":
+                # while let PAT = e { .. }: the loop goes on as long as e matches PAT
+                self.eat(); self.eat()
+                pat = self.pattern()
+                self.eat("=")
+                ex = self.postfix()
+                body = self.block()
+                stmts.append(("whilelet", pat, ex, body))
                 continue
             if tok == "while":
                 self.eat()
@@ -870,7 +881,7 @@ class Gen:
         for st in b[1]:
             if st[0] in ("assign", "append") and st[1] not in out:
                 out.append(st[1])
-            if st[0] in ("ifstmt", "while"):
+            if st[0] in ("ifstmt", "while", "whilelet"):
                 out += [v for v in self.assigned(st[2]) if v not in out]
             if st[0] == "ifelsestmt":
                 out += [v for v in self.assigned(st[2]) + self.assigned(st[3]) if v not in out]
@@ -1204,6 +1215,29 @@ class Gen:
             self.loops.append("Fixpoint %s (fuel : nat) %s{struct fuel} : %s :=\nmatch fuel with\n| O => %s\n| S fuel_ =>\n(if %s then\n%s\nelse\n%s)\nend." % (
                 lname, "".join("(%s : val) " % inner[v] for v in names), self.ty, self.ret("VStuck", inner),
                 self.cond(c, inner), body_code, rest_code))
+            return "(%s fuel %s)" % (lname, " ".join(env[v] for v in names))
+        if kind == "whilelet":
+            # as `while`: a function of its own, recursive on fuel; each round evaluates e (it may change
+            # self), goes through the body and round again when the value matches the pattern, and on to
+            # what follows the loop when it does not
+            _, wpat, ex, body = s
+            self.uses_fuel = True
+            lname = "%s_loop%d" % (self.cname, len(self.loops) + 1)
+            names = sorted(env.keys(), key=lambda v: (v != "self", v))
+            inner = {v: "%s_l" % v.replace("'", "") for v in names}
+
+            def again(env2, _v):
+                return "(%s fuel_ %s)" % (lname, " ".join(env2[v] for v in names))
+
+            def after(env2, val):
+                v, r = self.fresh("v"), self.fresh("rest")
+                code = "let %s := %s in\nlet %s := fun _ : unit =>\n%s in\n" % (v, val, r, cont(env2))
+                return code + self.pat(wpat, v, env2, lambda env3: self.block(body, env3, again), "%s tt" % r)
+            self.again.append(again)
+            body_code = self.ev(ex, inner, after)
+            self.again.pop()
+            self.loops.append("Fixpoint %s (fuel : nat) %s{struct fuel} : %s :=\nmatch fuel with\n| O => %s\n| S fuel_ =>\n(%s)\nend." % (
+                lname, "".join("(%s : val) " % inner[v] for v in names), self.ty, self.ret("VStuck", inner), body_code))
             return "(%s fuel %s)" % (lname, " ".join(env[v] for v in names))
         if kind == "iflet":
             _, pat, ex, body = s
